@@ -762,6 +762,11 @@ def gen_C04_phase1(o, rng, tier):
         if len(u) >= 2:
             t.append(f"{reg} gdm 1 [q:{u[0]}#0,q:{u[1]}#0]")
             t.append(f"{reg} gdm 1 [k:{u[0]}#7001,k:{u[1]}#7002,k:{u[-1]}#7003]")
+            t.append(f"{reg} gdum 1 [k:{u[0]}#7001,k:{u[1]}#7002]")
+        # the unsafe fast path inside its contract (key present, or room left): user code runs in it too
+        for c in u:
+            if c in lay or len(lay) < len(u) - 1:
+                t.append(f"{reg} insert_unchecked {{k{c}}} {{v}}")
         return t
 
     for nn in range(0, n + 1):
